@@ -41,6 +41,81 @@ def apply(repo, m):
         p = os.path.join(repo, e['file'])
         s = open(p).read()
         saved.setdefault(p, s)
+        if 'rename' in e:
+            # rename identifiers inside one function (`fn <name>` up to its matching closing brace)
+            import re
+            m = re.search(r'\bfn\s+%s\b' % re.escape(e['fn']), s)
+            if not m:
+                for p2, s2 in saved.items():
+                    open(p2, 'w').write(s2)
+                raise LookupError('mutant %s: fn %s not found in %s' % (m and '' or e['fn'], e['fn'], e['file']))
+            i = s.index('{', s.index(')', m.end()) if False else m.end())
+            # find the body's opening brace: first '{' after the signature's closing paren at depth 0
+            depth, j = 0, m.end()
+            while j < len(s):
+                if s[j] == '(':
+                    depth += 1
+                elif s[j] == ')':
+                    depth -= 1
+                elif s[j] == '{' and depth == 0:
+                    break
+                j += 1
+            k, d = j, 0
+            while k < len(s):
+                if s[k] == '{':
+                    d += 1
+                elif s[k] == '}':
+                    d -= 1
+                    if d == 0:
+                        break
+                k += 1
+            start = m.start()
+            # include the attribute lines directly above the fn (e.g. #[instrument(skip(param))])
+            while True:
+                ls = s.rfind('\n', 0, max(start - 1, 0))
+                prev = s[s.rfind('\n', 0, max(ls, 0)) + 1:ls + 1] if ls > 0 else ''
+                line_start = s.rfind('\n', 0, start) + 1
+                head = s[line_start:start]
+                pl_end = line_start - 1
+                pl_start = s.rfind('\n', 0, max(pl_end, 0)) + 1
+                pl = s[pl_start:pl_end]
+                if pl.strip().startswith('#['):
+                    start = pl_start
+                else:
+                    break
+            seg = s[start:k + 1]
+            if e['rename'] == 'all':
+                # every parameter and simple `let` binding of the function gets a new name (shorthand struct fields excluded)
+                body_txt = s[m.start():k + 1]
+                sig = body_txt[:body_txt.index('{')]
+                names = set(re.findall(r'(?:\(|,)\s*(?:mut\s+)?([a-z_][a-z0-9_]*)\s*:', sig))
+                names |= set(re.findall(r'\blet\s+(?:mut\s+)?([a-z_][a-z0-9_]*)\b', body_txt))
+                names |= set(x for tup in re.findall(r'\blet\s+\(([^)]*)\)\s*=', body_txt) for x in re.findall(r'(?:mut\s+)?([a-z_][a-z0-9_]*)', tup) if x != 'mut')
+                names -= {'self', '_', 'mut'} | set(e.get('skip', []))
+                # a name used as a shorthand field (`Foo { name, .. }` / `Foo { name }`) cannot be renamed textually
+                for nme in sorted(names):
+                    if re.search(r'[{,]\s*%s\s*[,}]' % re.escape(nme), body_txt) or re.search(r'\b%s\s*@' % re.escape(nme), body_txt):
+                        names.discard(nme)
+                e = dict(e, rename={nme: nme + '_rn' for nme in names})
+            # never touch string literals or field labels (`name:` inside braces of a pattern / struct literal is left alone
+            # unless it is followed by a type, which we cannot tell apart - so labels are skipped only when followed by a space+lowercase ident and a comma/brace)
+            sig_end = seg.index('{', seg.index('fn ')) if '{' in seg else 0
+            # signature: plain rename (skip(...) lists of attributes included); body: leave `label: value` field labels alone
+            head_, seg = seg[:sig_end], seg[sig_end:]
+            for old, new in e['rename'].items():
+                head_ = re.sub(r'(?<![\w.])%s\b' % re.escape(old), new, head_)
+            parts = re.split(r'("(?:[^"\\]|\\.)*")', seg)
+            for pi_ in range(0, len(parts), 2):
+                for old, new in e['rename'].items():
+                    parts[pi_] = re.sub(r'(?<![\w.])%s\b(?!\s*:\s*[a-z_]+\s*[,}])' % re.escape(old), new, parts[pi_])
+            for pi_ in range(1, len(parts), 2):
+                for old, new in e['rename'].items():
+                    # inline format arguments: "{name}" / "{name:?}"
+                    parts[pi_] = re.sub(r'\{%s(?=[}:])' % re.escape(old), '{' + new, parts[pi_])
+            seg = head_ + ''.join(parts)
+            s = s[:start] + seg + s[k + 1:]
+            open(p, 'w').write(s)
+            continue
         if s.count(e['old']) < 1:
             for p2, s2 in saved.items():
                 open(p2, 'w').write(s2)
